@@ -1032,8 +1032,13 @@ func oracleC20(r *Rng, n int, thorough bool, seeds []string) *OracleResult {
 			p.UpdateOption(dhcpv4.OptClasslessStaticRoute(&dhcpv4.Route{Dest: &net.IPNet{IP: net.IP{10, byte(w), 0, 0}, Mask: net.CIDRMask(16, 32)}, Router: net.IP{10, 0, byte(w), 1}}))
 			p.UpdateOption(dhcpv4.OptParameterRequestList(dhcpv4.OptionRouter, dhcpv4.GenericOptionCode(uint8(w+1))))
 			p.UpdateOption(dhcpv4.OptGeneric(dhcpv4.OptionVendorSpecificInformation, []byte{byte(w), 1, 2}))
+			// codes nobody registered, congruent to each other modulo every small power of
+			// two: whatever a printer remembers about one must not show in another's text
+			// (seeded change C20-18: an unsynchronised name cache indexed by code % 64)
+			p.UpdateOption(dhcpv4.OptGeneric(dhcpv4.GenericOptionCode(uint8(130+16*(w%7))), []byte{byte(w)}))
 			vals = append(vals, p)
 			if m, ok := genMsg6(rr, 1, false).(*dhcpv6.Message); ok {
+				m.AddOption(&dhcpv6.OptionGeneric{OptionCode: dhcpv6.OptionCode(1000 + 1024*w), OptionData: []byte{byte(w)}})
 				vals = append(vals, m)
 			}
 		}
